@@ -72,6 +72,13 @@ const CYCLE_SAMPLES: &str = include_str!("../samples/cycles.asn");
 /// …), separated by a marker line; each is a base of its own: whatever is made of it, the
 /// answer is Ok, Err or a warning, never a crash
 const UNSUPPORTED_SAMPLES: &str = include_str!("../samples/unsupported.asn");
+/// 68 small inputs with boundary literals in every literal position (values, DEFAULTs, range and
+/// size bounds, tag numbers, enumeral and named numbers, named bits, OID arcs, version numbers,
+/// REAL values in decimal, mantissa/base/exponent and special form, empty / odd / long bit and
+/// hex strings, character tuples and quadruples, time strings): 2^63, 2^64, 2^127, 2^128, 10^40,
+/// 10^400, the exact ends of i64 / u64 / i128, inverted and degenerate ranges, f64 overflow and
+/// underflow. Same marker-separated format; each sample is a base of its own
+const LITERAL_SAMPLES: &str = include_str!("../samples/literals.asn");
 
 fn base_bytes(b: &Base) -> Vec<u8> {
     match b {
@@ -175,18 +182,21 @@ impl Scenario for C08Images {
         let root = Rng::new(seed);
         let mut w = root.fork("workload");
         let corpus_turn = !env.corpus.is_empty() && idx % 4 != 3;
-        let base = if idx % 16 == 15 {
-            // a hand-written valid module using notation the generator does not produce
-            // (TIME, REAL, MACRO, CLASS / objects / object sets, selection types, COMPONENTS OF,
-            // parameterization, recursion, multi-byte strings): still a VALID base for images
-            {
-                let unsupported: Vec<&str> = UNSUPPORTED_SAMPLES.split("\n-- @@ --\n").collect();
-                match (idx as usize / 16) % 4 {
+        let base = if idx % 8 == 7 {
+            // a hand-written base using notation the generator does not produce: one run in
+            // four of these takes one of the three large files (notation, notation 2, cycles),
+            // the others walk the small one-purpose inputs (unsupported notation, boundary
+            // literals), so that the quick tier reaches every one of them at least twice
+            let j = idx as usize / 8;
+            if j % 4 == 0 {
+                match (j / 4) % 3 {
                     0 => Base::Text(NOTATION_SAMPLES.to_string()),
                     1 => Base::Text(NOTATION_SAMPLES2.to_string()),
-                    2 => Base::Text(CYCLE_SAMPLES.to_string()),
-                    _ => Base::Text(unsupported[(idx as usize / 64) % unsupported.len()].to_string()),
+                    _ => Base::Text(CYCLE_SAMPLES.to_string()),
                 }
+            } else {
+                let small: Vec<&str> = UNSUPPORTED_SAMPLES.split("\n-- @@ --\n").chain(LITERAL_SAMPLES.split("\n-- @@ --\n")).collect();
+                Base::Text(small[(j - j / 4 - 1) % small.len()].to_string())
             }
         } else if corpus_turn {
             // systematic walk: every corpus file is a base several times per tier
@@ -249,7 +259,7 @@ impl Scenario for C08Images {
                 cases.push(Case { image: Image::Truncate { at }, file: at % 5 == 0 });
             }
         }
-        if tier == Tier::Thorough && idx % 16 == 15 {
+        if tier == Tier::Thorough && idx % 8 == 7 && (idx / 8) % 4 == 0 {
             // notation samples: a stratified walk over the prefixes, shifted by the run index
             for j in 0..200usize {
                 cases.push(Case { image: Image::Truncate { at: (j * n / 200 + (idx as usize / 32)) % (n + 1) }, file: j % 5 == 0 });
